@@ -528,6 +528,7 @@ class GfRunner:
             raise HarnessError("gfortran not found")
         self.tmp = tempfile.mkdtemp(prefix="verif_c02_")
         self.compiles = 0
+        self.executions = 0
         self.seq = 0
         # the data module is compiled once and linked into every batch
         src = os.path.join(self.tmp, "c02_data.f90")
@@ -547,39 +548,76 @@ class GfRunner:
     # ---- source generation ---------------------------------------------
     @staticmethod
     def _source(items, skip_p):
-        """items: list of dicts(id, ptext|None, ftext, rtype, mask).
-        Returns (lines, {line number: (id, 'P'|'F')})."""
-        where = {}
+        """items: list of dicts(id, ptext|None, ftext|None, rtype, mask,
+        risky).  Returns (lines, {line number: (id, 'P'|'F')}, {(group,
+        slot): (id, tag)}, groups) with groups = [[item, ...], ...]: the
+        items that are not `risky` in chunks of GROUP, then every risky item
+        in a group of its own (the executable runs the groups named on its
+        command line, so a crash - integer division by zero in a wrongly
+        grouped text - costs one process, not a recompilation).
+
+        Results are stored in arrays and printed after the last assignment
+        of a group (one WRITE per group and type instead of one per
+        expression: gfortran's code generation for I/O statements dominated
+        the compile time)."""
+        where, slots = {}, {}
         lines = ["module c02_ev", "use c02_data", "implicit none",
-                  "contains"]
-        ngroups = 0
-        fmt = {"i": "I0", "r": "ES24.16E3", "l": "L1"}
-        var = {"i": "ires", "r": "dres", "l": "lres"}
-        for start in range(0, len(items), GROUP):
-            lines += [f"subroutine ev_{ngroups}(v)",
-                      "integer, intent(in) :: v",
-                      "integer(kind=8) :: ires", "real(kind=8) :: dres",
-                      "logical :: lres"]
-            ngroups += 1
-            for item in items[start:start + GROUP]:
+                 "contains"]
+        safe = [it for it in items if not it.get("risky")]
+        groups = [safe[i:i + GROUP] for i in range(0, len(safe), GROUP)]
+        groups += [[it] for it in items if it.get("risky")]
+        var = {"i": "vi", "r": "vr", "l": "vl"}
+        code = {"i": 1, "r": 2, "l": 3}
+        for gno, group in enumerate(groups):
+            body = []
+            nslot = 0
+            for item in group:
                 rty = item["rtype"]
-                lines.append(f"if (iand(vbit, {item['mask']}) /= 0) then")
+                stmts = []
                 for tag, text in (("P", item["ptext"]), ("F", item["ftext"])):
                     if text is None or (tag == "P" and item["id"] in skip_p):
                         continue
-                    lines.append(f"{var[rty]} = {text}")
-                    where[len(lines)] = (item["id"], tag)
-                    lines.append(
-                        f"write(*,'(A1,1X,I0,1X,I0,1X,{fmt[rty]})') "
-                        f"'{tag}', {item['id']}, v, {var[rty]}")
-                lines.append("end if")
-            lines.append(f"end subroutine ev_{ngroups - 1}")
+                    nslot += 1
+                    slots[(gno, nslot)] = (item["id"], tag)
+                    stmts.append((f"{var[rty]}({nslot}) = {text}",
+                                  (item["id"], tag)))
+                    stmts.append((f"st({nslot}) = {code[rty]}", None))
+                if stmts:
+                    body.append((f"if (iand(vbit, {item['mask']}) /= 0) "
+                                 f"then", None))
+                    body.extend(stmts)
+                    body.append(("end if", None))
+            dim = max(nslot, 1)
+            lines += [f"subroutine ev_{gno}(v)",
+                      "integer, intent(in) :: v",
+                      f"integer(kind=8) :: vi({dim})",
+                      f"real(kind=8) :: vr({dim})",
+                      f"logical :: vl({dim})",
+                      f"integer :: st({dim}), j", "st = 0"]
+            for text, mark in body:
+                lines.append(text)
+                if mark is not None:
+                    where[len(lines)] = mark
+            lines += [
+                f"do j = 1, {nslot}", "select case (st(j))", "case (1)",
+                f"write(*,'(I0,1X,I0,1X,I0,1X,I0)') {gno}, j, v, vi(j)",
+                "case (2)",
+                f"write(*,'(I0,1X,I0,1X,I0,1X,ES24.16E3)') {gno}, j, v, "
+                f"vr(j)", "case (3)",
+                f"write(*,'(I0,1X,I0,1X,I0,1X,L1)') {gno}, j, v, vl(j)",
+                "end select", "end do",
+                f"end subroutine ev_{gno}"]
         lines += ["end module c02_ev", "program c02_main", "use c02_data",
-                  "use c02_ev", "implicit none", "integer :: v",
-                  f"do v = 1, {NV}", "call setvals(v)"]
-        lines += [f"call ev_{g}(v)" for g in range(ngroups)]
-        lines += ["end do", "end program c02_main"]
-        return lines, where
+                  "use c02_ev", "implicit none", "integer :: v, g, g0, g1",
+                  "character(len=16) :: arg",
+                  "call get_command_argument(1, arg)", "read(arg, *) g0",
+                  "call get_command_argument(2, arg)", "read(arg, *) g1",
+                  f"do v = 1, {NV}", "call setvals(v)", "do g = g0, g1",
+                  "select case (g)"]
+        for gno in range(len(groups)):
+            lines += [f"case ({gno})", f"call ev_{gno}(v)"]
+        lines += ["end select", "end do", "end do", "end program c02_main"]
+        return lines, where, slots, groups
 
     def _compile(self, lines):
         self.seq += 1
@@ -610,13 +648,11 @@ class GfRunner:
             pass
         return (exe if proc.returncode == 0 else None), errors, proc.stderr
 
-    def _execute(self, exe):
-        proc = subprocess.run([exe], capture_output=True, text=True,
+    def _execute(self, exe, first, last):
+        proc = subprocess.run([exe, str(first), str(last)],
+                              capture_output=True, text=True,
                               cwd=self.tmp, timeout=1800)
-        try:
-            os.unlink(exe)
-        except OSError:
-            pass
+        self.executions += 1
         return proc.returncode, proc.stdout, proc.stderr
 
     # ---- public ---------------------------------------------------------
@@ -629,7 +665,7 @@ class GfRunner:
         skip_p = set()
         exe = None
         for _ in range(6):
-            lines, where = self._source(items, skip_p)
+            lines, where, slots, groups = self._source(items, skip_p)
             exe, errors, stderr = self._compile(lines)
             if exe:
                 break
@@ -656,33 +692,59 @@ class GfRunner:
                                    "expressions:\n" + stderr[-1500:])
         if not exe:
             raise HarnessError("could not obtain a compiling batch")
-        code, out, err = self._execute(exe)
-        if code != 0:
-            if len(items) == 1:
-                item = items[0]
-                if item["ptext"] is None or item["id"] in skip_p:
+
+        def collect(out):
+            for line in out.splitlines():
+                parts = line.split(None, 3)
+                try:
+                    iid, tag = slots[(int(parts[0]), int(parts[1]))]
+                    res[iid][tag][int(parts[2]) - 1] = parts[3].strip()
+                except (KeyError, ValueError, IndexError) as err:
                     raise HarnessError(
-                        f"reference program crashed: {item['ftext']!r} "
-                        f"{err[-500:]}")
-                # does the reference alone run?
-                alone = dict(item, ptext=None)
-                ref = self.run([alone])    # raises HarnessError on a crash
+                        f"unexpected program output {line!r}") from err
+
+        def run_group(gno):
+            """One group in its own process."""
+            code, out, err = self._execute(exe, gno, gno)
+            if code == 0:
+                collect(out)
+                return
+            group = groups[gno]
+            if len(group) > 1:
+                # unexpected crash among the non-risky items: isolate it
+                sub = self.run([dict(it, risky=True) for it in group])
+                for iid, val in sub.items():
+                    if res[iid]["perr"] is None:
+                        res[iid] = val
+                return
+            item = group[0]
+            if item["ptext"] is None or item["id"] in skip_p:
+                raise HarnessError(
+                    f"reference program crashed: {item['ftext']!r} "
+                    f"{err[-500:]}")
+            if item["ftext"] is not None:
+                # which of the two texts crashed?  (raises on a crash)
+                ref = self.run([dict(item, ptext=None)])
                 res[item["id"]]["F"] = ref[item["id"]]["F"]
-                res[item["id"]]["crash"] = True
-                res[item["id"]]["crash_msg"] = err.strip()[-300:]
-                return res
-            half = len(items) // 2
-            res = self.run(items[:half])
-            res.update(self.run(items[half:]))
-            for iid in skip_p:
-                if res[iid]["perr"] is None:
-                    raise HarnessError("inconsistent diagnostics on re-run")
-            return res
-        for line in out.splitlines():
-            parts = line.split(None, 3)
-            if len(parts) != 4 or parts[0] not in ("P", "F"):
-                raise HarnessError(f"unexpected program output {line!r}")
-            res[int(parts[1])][parts[0]][int(parts[2]) - 1] = parts[3].strip()
+            res[item["id"]]["crash"] = True
+            res[item["id"]]["crash_msg"] = err.strip()[-300:]
+
+        nsafe = sum(1 for grp in groups if not grp[0].get("risky"))
+        try:
+            if nsafe:
+                code, out, _ = self._execute(exe, 0, nsafe - 1)
+                if code == 0:
+                    collect(out)
+                else:
+                    for gno in range(nsafe):
+                        run_group(gno)
+            for gno in range(nsafe, len(groups)):
+                run_group(gno)
+        finally:
+            try:
+                os.unlink(exe)
+            except OSError:
+                pass
         return res
 
 
